@@ -12,12 +12,12 @@ open OdeVerif
 -- source: odetoolbox/system_of_shapes.py :: SystemOfShapes.generate_propagator_solver
 /-- `for col in range(P_sym.shape[1]):` of `generate_propagator_solver` -/
 def propagatorSolver_for2 {n : Nat} {K : Type} [DecidableEq K] [OfNat K 0] [Neg K] [Div K] (b : (Fin n → K)) (Pnz : (Fin n → Fin n → Bool)) (row : Fin n) : List (Fin n) → List (Fin n × Fin n) → List (Propagator.Term n K) → Except Propagator.AsmErr ((List (Fin n × Fin n) × List (Propagator.Term n K)))
-  | [], P_expr, update_expr_terms => .ok (P_expr, update_expr_terms)
+  | [], P_expr, update_expr_terms => Except.ok (P_expr, update_expr_terms)
   | col :: rest__, P_expr, update_expr_terms =>
     if (Pnz row col = true) then
       let P_expr : List (Fin n × Fin n) := (P_expr ++ [(row, col)])
       if ((row ≠ col) ∧ (b col ≠ 0)) then
-        .error (Propagator.AsmErr.dependsOnInhom row.val col.val)
+        Except.error (Propagator.AsmErr.dependsOnInhom row.val col.val)
       else
         let update_expr_terms : List (Propagator.Term n K) := (update_expr_terms ++ [(Propagator.Term.px row col)])
         propagatorSolver_for2 b Pnz row rest__ P_expr update_expr_terms
@@ -26,18 +26,18 @@ def propagatorSolver_for2 {n : Nat} {K : Type} [DecidableEq K] [OfNat K 0] [Neg 
 
 /-- `for row in range(P_sym.shape[0]):` of `generate_propagator_solver` -/
 def propagatorSolver_for1 {n : Nat} {K : Type} [DecidableEq K] [OfNat K 0] [Neg K] [Div K] (A : (Fin n → Fin n → K)) (b : (Fin n → K)) (cnz : (Fin n → Bool)) (order : (Fin n → Nat)) (Pnz : (Fin n → Fin n → Bool)) : List (Fin n) → List (Fin n × Fin n) → List (Fin n × List (Propagator.Term n K)) → Except Propagator.AsmErr ((List (Fin n × Fin n) × List (Fin n × List (Propagator.Term n K))))
-  | [], P_expr, update_expr => .ok (P_expr, update_expr)
+  | [], P_expr, update_expr => Except.ok (P_expr, update_expr)
   | row :: rest__, P_expr, update_expr =>
     if (cnz row = true) then
-      .error (Propagator.AsmErr.nonlinear row.val)
+      Except.error (Propagator.AsmErr.nonlinear row.val)
     else
       if ((b row ≠ 0) ∧ ((order row) > 1)) then
-        .error (Propagator.AsmErr.higherOrderInhom row.val)
+        Except.error (Propagator.AsmErr.higherOrderInhom row.val)
       else
         let update_expr_terms : List (Propagator.Term n K) := []
         match propagatorSolver_for2 b Pnz row (List.finRange n) P_expr update_expr_terms with
-        | .error e__ => .error e__
-        | .ok (P_expr, update_expr_terms) =>
+        | Except.error e__ => Except.error e__
+        | Except.ok (P_expr, update_expr_terms) =>
           let update_expr_terms :=
             if (b row ≠ 0) then
               let update_expr_terms :=
@@ -60,8 +60,8 @@ def propagatorSolver {n : Nat} {K : Type} [DecidableEq K] [OfNat K 0] [Neg K] [D
   let P_expr : List (Fin n × Fin n) := []
   let update_expr : List (Fin n × List (Propagator.Term n K)) := []
   match propagatorSolver_for1 A b cnz order Pnz (List.finRange n) P_expr update_expr with
-  | .error e__ => .error e__
-  | .ok (P_expr, update_expr) =>
-    .ok (P_expr, update_expr)
+  | Except.error e__ => Except.error e__
+  | Except.ok (P_expr, update_expr) =>
+    Except.ok (P_expr, update_expr)
 
 end OdeVerif.Generated
